@@ -12,3 +12,33 @@ n = tab.count('\n') - 2
 s = re.sub(r'last run: \d+ of \d+ detected', f'last run: {n} of {n} detected', s)
 open(p, 'w').write(s)
 print(n, 'seeded changes in table')
+
+# ---- §7.1 mutant table from tools/mutants.py + tools/mutants_last.log
+sys.path.insert(0, os.path.join(HERE, 'tools'))
+import mutants  # noqa: E402
+log = open(os.path.join(HERE, 'tools', 'mutants_last.log')).read()
+res = {m.group(1): m.group(2) for m in re.finditer(r'^([A-Za-z0-9-]+): (DETECTED|MISSED)', log, re.M)}
+byc = {}
+for mu in mutants.MUTANTS:
+    byc.setdefault(mu['checks'][0], []).append((mu['name'], res.get(mu['name'])))
+tot = sum(len(v) for v in byc.values())
+det = sum(1 for v in byc.values() for _, st in v if st == 'DETECTED')
+rows = ['| check | mutants | result |', '|---|---|---|']
+for c in sorted(byc):
+    rows.append(f"| {c} | {', '.join('`' + n + '`' for n, _ in byc[c])} | {sum(1 for _, st in byc[c] if st == 'DETECTED')}/{len(byc[c])} |")
+s = open(p).read()
+i = s.index('### 7.1 Source mutants')
+j = s.index('### 7.2 Independently seeded changes')
+sec = f"""### 7.1 Source mutants (`tools/mutants.py`, `tools/run_mutants.py`)
+
+{tot} small textual mutants written by me, each applied to a scratch copy of /repo (`DSIM_REPO`), the repo's
+tests run first (must stay green), then the listed checks at the quick tier. Every `fix:` commit has a `revert-…`
+mutant. Last full run (`tools/mutants_last.log`, about 30 min on 16 cores): **{det} of {tot} detected**.
+Mutants that turned out to be equivalent under the property were replaced, not counted (§6.3).
+
+{chr(10).join(rows)}
+
+"""
+s = s[:i] + sec + s[j:]
+open(p, 'w').write(s)
+print(det, 'of', tot, 'mutants detected')
